@@ -313,7 +313,9 @@ def retStepWith (g : Guard) (s : S) (f : Frame) (r : Ret) : M S :=
         { s with txDone := update s.txDone obj (done.drop bytes.length) }
     else
       let extra := bytes.drop done.length
-      match (s.ops.find? fun o => o.obj == obj && o.kind.isWrite && (o.state == .inflight || o.state == .starting)) with
+      -- (also a write that was dropped by Close / a closed object: what the kernel had accepted before still reaches the peer)
+      match (s.ops.find? fun o => o.obj == obj && o.kind.isWrite && (o.state == .inflight || o.state == .starting || o.state == .dropped)
+                                   && o.seen < o.len) with
       | none => .error "peer-received-bytes-nobody-wrote"
       | some o =>
         g [(done != bytes.take done.length, "peer-received-different-bytes"),
